@@ -47,7 +47,26 @@ ExpressionParser::ExpressionParser(RecursiveParser *parser)
  * 式の最上位から解析を開始します。
  * 実際には代入式（parseAssignment）を呼び出します。
  */
-ASTNode *ExpressionParser::parseExpression() { return parseAssignment(); }
+namespace {
+// The parser is recursive: every level of ( ), [ ], { }, call arguments, casts
+// and unary operators costs a chain of stack frames. Beyond this depth the
+// input is rejected with a diagnostic instead of exhausting the stack.
+constexpr int kMaxExpressionNesting = 500;
+
+struct NestingGuard {
+    int &depth;
+    explicit NestingGuard(int &d) : depth(d) { ++depth; }
+    ~NestingGuard() { --depth; }
+};
+} // namespace
+
+ASTNode *ExpressionParser::parseExpression() {
+    if (nesting_depth_ >= kMaxExpressionNesting) {
+        parser_->error("Expression is nested too deeply");
+    }
+    NestingGuard guard(nesting_depth_);
+    return parseAssignment();
+}
 
 // ========================================
 // 代入式（優先順位: 最低）
@@ -550,6 +569,10 @@ ASTNode *ExpressionParser::parseMultiplicative() {
  * - ++, -- (前置インクリメント・デクリメント)
  */
 ASTNode *ExpressionParser::parseUnary() {
+    if (nesting_depth_ >= kMaxExpressionNesting) {
+        parser_->error("Expression is nested too deeply");
+    }
+    NestingGuard guard(nesting_depth_);
     // v0.12.0: await式のパース
     if (parser_->check(TokenType::TOK_AWAIT)) {
         parser_->advance(); // consume 'await'
